@@ -151,6 +151,10 @@ type gSub struct {
 func genDistrConfig(g *Gen) []gSub {
 	mainAcc := gAcc{distrtypes.Main, g.pick("", "", "x")}
 	internals := []string{"i1", "i2", "i3", "fee_collector", "green_energy_booster_collector"}
+	if g.chance(0.3) {
+		// ids that differ only by letter case are different accounts
+		internals = []string{"i1", "I1", "Boosters", "boosters", "fee_collector"}
+	}
 	n := 1 + g.intn(5)
 	var subs []gSub
 	pending := map[string]gAcc{} // INTERNAL / MAIN used as destination, not yet consumed as a source
